@@ -15,6 +15,11 @@ the model is run with exactly that order (`follow`), so both sides execute the s
 (events + final `done` / `blocked T0:… T1:…`) must be equal.  The oracle reads only the implementation's log
 (events and the `# T<k> call/ret/leave` annotations of the harness); it never consults the model.
 
+Search mode (ctx.search_mode: an obligation or a tie broke — or, set here, a run diverged from the model on a case the
+oracle accepts): the divergence is kept for the end, the targeted programs of search_programs() are enumerated at
+once (every raw schedule within 1..2 preemptions, through the silent switch point `harness:beforeWakeread` of the
+harness), the counts become the thorough ones.
+
 Oracle kinds (C04): wrong-thread, order, exec-context, inline-first, lost-wakeup, task-dropped, drain-on-exit
                     (loop() returned although a functor appended before its last test of the queue never ran)
 Oracle kinds (C05): quit-ignored, quit-lost, loop-returned-without-quit, uaf-dtor, uaf, startloop (wrong pointer,
@@ -837,9 +842,11 @@ class Runner:
         self.kinds = set(kinds) | BOTH_KINDS
         self.pool = ThreadPoolExecutor(max_workers=8)
         self.env = None
-        # search mode (an obligation or a tie broke): a disagreement between model and implementation is expected then
-        # and must not end the search for an input on which the implementation itself violates the property
+        # search mode (an obligation or a tie broke, or model and implementation diverged on a case the oracle accepts):
+        # a disagreement between model and implementation must not end the search for an input on which the
+        # implementation itself violates the property; it is reported at the end if nothing concrete was found
         self.deferred = []
+        self.searched = False      # the targeted search programs have run
 
     def close(self):
         self.pool.shutdown(wait=True)
@@ -904,12 +911,19 @@ class Runner:
             elif r.fails:
                 ctx.count("other-property:" + r.fails[0][0])
             elif r.mismatch:
-                if ctx.search_mode:
-                    if len(self.deferred) < 2:
-                        self.deferred.append((exe, prog, origin + ":" + tag, self.env))
-                    ctx.count("model-differs-while-searching")
-                else:
-                    self._report_mismatch(exe, prog, origin + ":" + tag)
+                self._diverged(exe, prog, origin + ":" + tag)
+
+    def _diverged(self, exe, prog, origin):
+        """model and implementation differ on a case the oracle accepts: the divergence is kept (reported at the end
+        unless a concrete violation turns up) and the run goes on in search mode — targeted programs, thorough counts"""
+        ctx = self.ctx
+        if not ctx.search_mode:
+            ctx.search_mode = True
+            ctx.notes.append("model and implementation diverged on %s: the search for a failing input was intensified"
+                             % origin)
+        if len(self.deferred) < 2:
+            self.deferred.append((exe, prog, origin, self.env))
+        ctx.count("model-differs-while-searching")
 
     def flush_deferred(self):
         if self.ctx.oracle_failures:
@@ -949,11 +963,8 @@ class Runner:
             if new and ctx.model_ok and not (ctx.search_mode and self.deferred):
                 mm = compare(impl, run_model(q, order))
                 if mm:
-                    if ctx.search_mode:
-                        self.deferred.append((exe, q, tag, self.env))
-                        return False
-                    found.append(("mismatch", q, mm))
-                    return True
+                    self._diverged(exe, q, tag)
+                    return False
             if new:
                 ctx.record(Case(ENGINE, q.lines(), tag), [impl], True)
             else:
@@ -1001,6 +1012,32 @@ def exhaustive_programs(which):
     return out
 
 
+def search_programs(which):
+    """targeted programs for the search mode (an obligation or a tie broke): every raw schedule within a small
+    preemption bound, run right after the corpus.  They aim at the window the harness opens immediately before the
+    eventfd read of handleRead() (`harness:beforeWakeread`, a switch point only a raw schedule can use): a foreign
+    thread queues (and wakes) while the loop thread handles a wake-up, and a further foreign call arrives after the
+    loop went back to poll — it must find the loop awake or wake it."""
+    out = []
+
+    def prog(tasks, pre, threads):
+        p = Prog()
+        p.mode, p.tasks, p.pre, p.threads = "plain", tasks, pre, threads
+        return p
+    if which == "C04":
+        # T1 queues two functors inside the window (running T1 on costs nothing), T2 queues once the loop sleeps again
+        out.append(("wake-window-two-submitters", prog({1: [], 2: [], 3: [], 4: []}, ["q1"], {1: ["q2", "q3"], 2: ["q4"]}), 1))
+        # one submitter: its last call has to wait until the loop is back in poll (second preemption)
+        out.append(("wake-window-one-submitter", prog({1: [], 2: [], 3: [], 4: []}, ["q1"], {1: ["q2", "q3", "q4"]}), 2))
+        # the wake-up under way comes from the pipe handler / from a functor that queues inside the drain
+        out.append(("wake-window-io-and-nested", prog({1: ["q3"], 2: [], 3: [], 4: []}, ["p1"], {1: ["q2", "r4"], 2: ["q2"]}), 2))
+    else:
+        # the late call is a quit(): it uses the same wakeup()
+        out.append(("wake-window-then-quit", prog({1: [], 2: []}, ["q1"], {1: ["q2"], 2: ["quit"]}), 1))
+        out.append(("wake-window-quit-one-thread", prog({1: [], 2: []}, ["q1"], {1: ["q2", "quit"]}), 2))
+    return out
+
+
 ASAN_ENV = {"ASAN_OPTIONS": "detect_stack_use_after_return=1:abort_on_error=0:exitcode=99:detect_leaks=0",
             "UBSAN_OPTIONS": "print_stacktrace=1"}
 
@@ -1008,9 +1045,24 @@ ASAN_ENV = {"ASAN_OPTIONS": "detect_stack_use_after_return=1:abort_on_error=0:ex
 def correspondence(prop, ctx, replay_file, which):
     """the correspondence part of ./check C04 and ./check C05 (which = "C04" | "C05")"""
     kinds = C04_KINDS if which == "C04" else C05_KINDS
-    quick = ctx.quick() and not ctx.search_mode
     exe = ctx.exe("loop_drv", "dbg")
     rn = Runner(prop, ctx, kinds)
+
+    def quick():
+        # search mode is entered before the run (an obligation or a tie broke) or on the way (model and implementation
+        # diverged on a case the oracle accepts, Runner._diverged): from then on the counts are the thorough ones
+        return ctx.quick() and not ctx.search_mode
+
+    def searched():
+        """search mode: the targeted wake-up-window programs, every raw schedule within their preemption bound, once,
+        as soon as the mode is entered.  Returns ctx.stop()."""
+        if ctx.search_mode and not rn.searched:
+            rn.searched = True
+            for name, p, bound in search_programs(which):
+                rn.exhaustive(exe, p, bound, 4000, "search:" + name)
+                if ctx.stop():
+                    break
+        return ctx.stop()
     try:
         if replay_file:
             engine, lines = read_case_file(replay_file)
@@ -1021,23 +1073,21 @@ def correspondence(prop, ctx, replay_file, which):
                     rn.env = ASAN_ENV
                     rn.run_progs(asan, [("replay-asan", parse_case(lines))], "replay")
             return engine
-        with_asan = which == "C05" or not quick
-        ctx.extra["flavours"] = ["dbg"] + (["asan+ubsan (detect_stack_use_after_return=1)"] if with_asan else [])
+        ctx.extra["flavours"] = ["dbg"]
         # 1. corpus: minimised past failures and the witnesses of the repaired defects, both properties' files
         rn.corpus(exe, ["C04", "C05"])
-        if ctx.stop():
+        if searched():
             return None
         # 2. directed families: a racing call after every number of steps of the loop thread
         sw = sweeps()
         rn.run_progs(exe, sw, "sweep")
-        if ctx.stop():
+        if searched():
             return None
         # 3. random programs and schedules
-        n = 700 if quick else 30000
         done = 0
-        while done < n and not ctx.stop():
+        while done < (700 if quick() else 30000) and not ctx.stop():
             items = []
-            for j in range(min(256, n - done)):
+            for j in range(min(256, (700 if quick() else 30000) - done)):
                 i = done + j
                 elt = (i % 4 == 0) if which == "C04" else (i % 2 == 0)
                 p = gen_elt(ctx.rng) if elt else gen_plain(ctx.rng)
@@ -1051,11 +1101,14 @@ def correspondence(prop, ctx, replay_file, which):
                 items.append((tag + (":elt" if elt else ":plain"), p))
             rn.run_progs(exe, items, "random")
             done += len(items)
+            if searched():
+                return None
         if ctx.stop():
             return None
         # 4. the use-after-free detector: the EventLoopThread families (C04, thorough: every family) again under
         #    ASan+UBSan with fake stacks
-        if with_asan:
+        if which == "C05" or not quick():
+            ctx.extra["flavours"].append("asan+ubsan (detect_stack_use_after_return=1)")
             asan = ctx.exe("loop_drv", "asan")
             rn.env = ASAN_ENV
             items = [(t + ":asan", p) for t, p in sw if p.mode == "elt" or which == "C04"]
@@ -1063,7 +1116,7 @@ def correspondence(prop, ctx, replay_file, which):
                 engine, lines = read_case_file(path)
                 if engine == ENGINE:
                     items.append(("corpus:asan", parse_case(lines)))
-            m = 60 if quick else 1500
+            m = 60 if quick() else 1500
             for i in range(m):
                 p = gen_elt(ctx.rng) if which == "C05" or i % 3 == 0 else gen_plain(ctx.rng)
                 if i % 3 == 0:
@@ -1076,8 +1129,17 @@ def correspondence(prop, ctx, replay_file, which):
                 if ctx.stop():
                     return None
             rn.env = None
+            if searched():
+                return None
         # 5. every schedule of a few small programs within a preemption bound
-        if not quick:
+        if not quick():
+            if not rn.searched:
+                # thorough tier on a tree whose obligations hold and whose runs agree with the model: the wake-up-window
+                # programs as well
+                for name, p, bound in search_programs(which):
+                    rn.exhaustive(exe, p, bound, 4000, "exhaustive:" + name)
+                    if ctx.stop():
+                        return None
             for name, p, bound in exhaustive_programs(which):
                 # spurious wake-ups make the tree infinite (wake, re-test, wait again): a fixed number of runs there
                 rn.exhaustive(exe, p, bound, 4000 if p.spurious else 40000, "exhaustive:" + name)
@@ -1088,6 +1150,8 @@ def correspondence(prop, ctx, replay_file, which):
                 rn.exhaustive(exe, p, 1, 400, "exhaustive:" + name)
                 if ctx.stop():
                     return None
+            if searched():
+                return None
     finally:
         rn.flush_deferred()
         rn.close()
